@@ -237,6 +237,47 @@ func passes() {
 	json.NewEncoder(os.Stdout).Encode(res)
 }
 
+// generrors: every place in the generator packages (internal/cpp, internal/python, internal/matlab, internal/ndjsoncommon and their
+// sub-packages) that constructs an error of its own (fmt.Errorf, errors.New, a validation.ValidationError literal): the generators run after
+// validation and after earlier generators have written their files, so they may only fail on I/O
+func generrors() {
+	res := []map[string]string{}
+	for _, p := range load() {
+		isGen := false
+		for _, g := range []string{"internal/cpp", "internal/python", "internal/matlab", "internal/ndjsoncommon"} {
+			if strings.Contains(p.PkgPath, g) {
+				isGen = true
+			}
+		}
+		if !isGen {
+			continue
+		}
+		for _, f := range p.Syntax {
+			for _, decl := range f.Decls {
+				fd, ok := decl.(*ast.FuncDecl)
+				if !ok || fd.Body == nil {
+					continue
+				}
+				ast.Inspect(fd.Body, func(n ast.Node) bool {
+					switch x := n.(type) {
+					case *ast.CallExpr:
+						name := exprString(p.Fset, x.Fun)
+						if name == "fmt.Errorf" || name == "errors.New" || strings.HasSuffix(name, ".Errorf") && strings.Contains(name, "err") {
+							res = append(res, map[string]string{"pkg": p.PkgPath, "func": fd.Name.Name, "site": name})
+						}
+					case *ast.CompositeLit:
+						if t := exprString(p.Fset, x.Type); strings.Contains(t, "ValidationError") {
+							res = append(res, map[string]string{"pkg": p.PkgPath, "func": fd.Name.Name, "site": t + "{}"})
+						}
+					}
+					return true
+				})
+			}
+		}
+	}
+	json.NewEncoder(os.Stdout).Encode(res)
+}
+
 func main() {
 	switch os.Args[1] {
 	case "mapranges":
@@ -249,5 +290,7 @@ func main() {
 		visitorFacts()
 	case "passes":
 		passes()
+	case "generrors":
+		generrors()
 	}
 }
